@@ -71,7 +71,7 @@ def report(ck, v, recs, what, keyprefix="txnotifier"):
 
 
 def directed(ck):
-    """Replay the F10 schedules and decide which model (Repaired TRUE/FALSE) the code follows."""
+    """Replay the directed schedules; the F10 (orphan) ones decide which model (Repaired TRUE/FALSE) the code follows."""
     trace, recs = run_exec(ck, "TestVerifC14Replay",
                            {"VERIF_SCHED": DIRECTED, "VERIF_NOUTS": 2, "VERIF_MAXREGS": 4, "VERIF_SAFETY": 3},
                            "exec_directed")
@@ -86,6 +86,10 @@ def directed(ck):
                         constants={"OrphanRescan": "TRUE", "Repaired": "TRUE"}, name="val_dir_%s_repaired" % name)
         ck.cov["traces_validated_against_impl"] += 1
         if v["ok"]:
+            continue
+        if "orphan" not in name:
+            # other directed schedules (backend-ahead answers ...): any rejection is a deviation
+            report(ck, v, tr, "directed schedule " + name, keyprefix="txnotifier-directed")
             continue
         repaired = False
         # is it exactly the modelled defect?  (conformance to the as-built model, no property invariants)
